@@ -1,3 +1,4 @@
+import Wx.Job.FaultsThm
 import Wx.Job.C10b
 import Wx.Job.C10c
 import Wx.Job.ApiThm
@@ -38,5 +39,11 @@ theorem api_priorities : (apiOf .deleteNow).1 = .urgent ∧ (apiOf .toWait).1 = 
 
 /-- the witness kept from before the repair of F7: with an unbiased select a normal control is a candidate while an urgent one is pending -/
 theorem unbiased_select_violates : ∃ s : St, s.cfg = Fixes.none ∧ s.urgent ≠ [] ∧ Src.normal ∈ recvCandidates s := c10_priority_fails_today
+
+/-- **… and when kill / signal / wait calls on the child fail** (the fault-aware task `Jf`, Wx/Job/Faults.lean): a failed call
+    ends its control and reorders nothing — per queue, taken ++ still queued = sent, in send order, for every fault script -/
+theorem order_kept_under_faults (cfg : Fixes) (behs : List Beh) (faults : List Jf.Fault) (ops : List Op) :
+    ∀ z ∈ Jf.runOpsF (Jf.initialF cfg behs faults) ops, ∀ q, q ≠ Src.timer →
+      proj z.x.st.taken q ++ z.x.st.qv.ids q = proj z.x.st.sent q := fun z hz => Jf.c10_faults cfg behs faults ops z hz
 
 end Props.C10
